@@ -17,7 +17,9 @@ RULE = ('(seq) the real SlidingWindowSemaphore / TaskSemaphore driven through EV
         'and an unknown tag; double releases of a valid token are outside the property and not generated); every return '
         'value / exception / current_count is compared with a reference model written from the statement; (thr) 1-3 blocking '
         'acquirers as real threads against every release order, with line-level yield injection inside utils.py: nobody may remain '
-        'blocked at quiescence once every issued token was released; (probe) after end-to-end runs with faults and cancels, each '
+        'blocked at quiescence once every issued token was released; (nb) a NON-blocking acquirer held at every statement of '
+        'acquire() while blocking / non-blocking rivals go for the last free permit: at quiescence it has a token or was refused, '
+        'never waits, and the single permit is granted once; (probe) after end-to-end runs with faults and cancels, each '
         'stage/tag semaphore of the manager must accept exactly its configured number of gate-blocked no-op tasks with block=False '
         'and refuse the next; non-trivial = at least one comparison made; distinct = distinct (model state, op) pairs / release '
         'orders / scenario shapes')
@@ -278,6 +280,118 @@ def threaded_case(case):
             'summary': {'order': order, 'results': {str(i): v for i, v in results.items()}, 'await': r}, 'fatal': fatal}
 
 
+
+# ------------------------------------------------------- non-blocking acquirers under contention
+def nonblocking_case(case):
+    """One permit is free; a non-blocking acquirer is held at a statement of acquire() while a rival (blocking or not) runs as far
+    as it can - typically taking the last permit.  Nobody releases anything meanwhile, so at quiescence the non-blocking acquirer
+    must have returned a token or raised NoResourcesAvailable: it may never be found waiting.  Afterwards everything is released and
+    the capacity must be whole again."""
+    from s3transfer.utils import NoResourcesAvailable, SlidingWindowSemaphore, TaskSemaphore
+    from .. import yieldinj
+
+    count, cls, w = case['count'], case['cls'], case['window']
+    sem = SlidingWindowSemaphore(count) if cls == 'sliding' else TaskSemaphore(count)
+    held = [('A', sem.acquire('A', False)) for _ in range(count - 1)]
+    res = {}
+    lock = threading.Lock()
+
+    def acq(name, tag, blocking):
+        try:
+            tok = sem.acquire(tag, blocking)
+            with lock:
+                res[name] = ('token', tag, tok)
+        except NoResourcesAvailable:
+            with lock:
+                res[name] = ('refused',)
+
+    started = threading.Event()
+
+    def rival_then_wait():
+        started.set()
+
+    wins = [{'file': 'utils.py', 'line': w['lineno'], 'nth': 0, 'action': 'pause', 'name': w['name'], 'wait': 0.5}]
+    inj = yieldinj.Injector(p=0.0, seed=case['seed'], files=['utils.py'], windows=wins)
+    t1 = threading.Thread(target=acq, args=('nb', 'A', False), daemon=True, name='vf-nb')
+    rivals = [threading.Thread(target=acq, args=(f'r{i}', ('A', 'B')[i % 2] if case['multi_tag'] else 'A', b), daemon=True, name=f'vf-rival{i}')
+              for i, b in enumerate(case['rivals'])]
+    inj.install()
+    try:
+        t1.start()
+        # the rivals start once the non-blocking acquirer sits at the line (or has finished, if the line is not on its path)
+        end = time.monotonic() + 2.0
+        while time.monotonic() < end and not inj.window_hits and t1.is_alive():
+            time.sleep(0.0005)
+        for t in rivals:
+            t.start()
+        watchdog.wait_quiescent(3.0)
+    finally:
+        inj.uninstall()
+    end = time.monotonic() + 3.0
+    while watchdog.PAUSED[0] and time.monotonic() < end:  # (the hold ends when the held thread has seen the others come to rest)
+        time.sleep(0.001)
+    ok = not watchdog.PAUSED[0] and watchdog.wait_quiescent(3.0, need=3)
+    viol = []
+    with lock:
+        got = dict(res)
+    def nb_waiting():
+        # where the non-blocking acquirer is: inside Condition.wait() called from acquire() (and not held by the harness)
+        import sys
+        import traceback
+
+        fr = sys._current_frames().get(t1.ident)
+        if fr is None:
+            return False
+        st = traceback.extract_stack(fr)
+        names = [(f.filename.rsplit('/', 1)[-1], f.name) for f in st]
+        return ('yieldinj.py', '_cb') not in names and any(fn == 'threading.py' and n == 'wait' for fn, n in names) and \
+            any(fn == 'utils.py' and n == 'acquire' for fn, n in names)
+
+    stuck = False
+    if ok and t1.is_alive():
+        stuck = nb_waiting()
+        if stuck:
+            time.sleep(0.05)
+            stuck = t1.is_alive() and nb_waiting() and watchdog.wait_quiescent(2.0, need=3)
+        if not stuck:
+            t1.join(5.0)  # it was merely slow
+            with lock:
+                got = dict(res)
+            ok = not t1.is_alive()
+    if stuck:
+        viol.append(V(f'{cls} semaphore({count}): a non-blocking acquire that raced another acquirer for the last permit is WAITING at '
+                      f'quiescence instead of raising (held at {w["name"]}; rivals blocking={case["rivals"]}; outcomes {got})', cls=cls,
+                      sym='nonblocking-acquire-waits'))
+    granted = [v for v in got.values() if v[0] == 'token']
+    if len(granted) > 1:
+        viol.append(V(f'{cls} semaphore({count}): {len(granted)} acquirers were granted the single free permit ({got})', cls=cls,
+                      sym='over-admission'))
+    # release everything: every acquirer must come home and the capacity must be whole
+    pending = list(held) + [(v[1], v[2]) for v in granted]
+    done_rel = set()
+    r = 'done'
+    for _ in range(6):
+        for tag, tok in pending:
+            if (tag, tok) not in done_rel:
+                done_rel.add((tag, tok))
+                sem.release(tag, tok)
+        r = watchdog.await_or_deadlock(lambda: not (t1.is_alive() or any(t.is_alive() for t in rivals)), None, None, wall_timeout=10.0)
+        with lock:
+            pending = [(v[1], v[2]) for v in res.values() if v[0] == 'token']
+        if r == 'done' and all(x in done_rel for x in pending):
+            break
+    if r == 'deadlock' and not viol:
+        viol.append(V(f'{cls} semaphore({count}): acquirer(s) still blocked at quiescence after every issued token was released', cls=cls,
+                      sym='lost-wakeup'))
+    if r == 'done' and cls == 'sliding' and not viol and sem.current_count() != count:
+        viol.append(V(f'sliding semaphore({count}) ends with current_count()={sem.current_count()} after all tokens released', cls=cls,
+                      sym='capacity-not-restored'))
+    return {'verdict': 'violated' if viol else ('held' if (ok and r == 'done') else 'inconclusive'),
+            'key': f'nb-{cls}-{count}-{w["name"]}-{case["rivals"]}-{case["multi_tag"]}', 'violations': viol,
+            'stats': {'nonblocking_races': 1, 'nonblocking_window_hit': 1 if inj.window_hits else 0,
+                      'nonblocking_refused': 1 if got.get('nb') == ('refused',) else 0},
+            'summary': {'outcomes': got, 'window_hit': dict(inj.window_hits)}, 'fatal': r != 'done'}
+
 # --------------------------------------------------------------------- probe
 def probe_eval(obs):
     viol = []
@@ -323,6 +437,18 @@ def gen_cases(tier, seed):
                                         cases.append({'type': 'thr', 'cls': cls, 'count': count, 'k': k, 'order': list(order),
                                                       'multi_tag': multi, 'settle': settle and not late, 'late': late,
                                                       'seed': rng.randrange(1 << 30), 'yield_p': yp, 'reps': 6 if late else 1})
+    # a non-blocking acquirer held at every statement of acquire() while rivals go for the last permit
+    from .. import windows
+
+    for cls, qual in (('sliding', 'SlidingWindowSemaphore.acquire'), ('task', 'TaskSemaphore.acquire')):
+        for f, ln, q in windows.candidate_lines(['utils.py']):
+            if q != qual:
+                continue
+            for count in (1, 2):
+                for rivals in ([True], [False], [True, False]):
+                    for multi in ((False, True) if cls == 'sliding' else (False,)):
+                        cases.append({'type': 'nb', 'cls': cls, 'count': count, 'rivals': rivals, 'multi_tag': multi,
+                                      'seed': rng.randrange(1 << 30), 'window': {'lineno': ln, 'name': f'{f}:{ln}:{q}'}})
     # end-to-end probe after fault / cancel runs
     from .c04 import fault_or_cancel
 
@@ -352,6 +478,8 @@ def run_case(case):
             n += k
         return {'verdict': 'violated' if viol else 'held', 'key': 'tasksem', 'violations': viol[:5], 'stats': {'tasksem_ops': n},
                 'summary': {'ops': n}}
+    if t == 'nb':
+        return nonblocking_case(case)
     if t == 'thr':
         res = None
         for rep in range(case.get('reps', 1)):
